@@ -351,6 +351,18 @@ type QueryCtx struct {
 	Coll     string
 	N        int // current collection size (for window choice)
 	SortBias []string
+	// percentages; 0 means the default
+	CritPct, SortPct, WinPct int
+}
+
+func pct(v, def int) int {
+	if v == 0 {
+		return def
+	}
+	if v < 0 {
+		return 0
+	}
+	return v
 }
 
 func (r *Rng) sortField(qc *QueryCtx) string {
@@ -393,14 +405,14 @@ func (r *Rng) windowVal(n int) int {
 
 func (r *Rng) Query(qc *QueryCtx) *model.Query {
 	q := &model.Query{Coll: qc.Coll}
-	if r.P(75) {
+	if r.P(pct(qc.CritPct, 75)) {
 		if r.P(50) {
 			q.Crit = r.PlannerCrit(qc.Crit)
 		} else {
 			q.Crit = r.Crit(qc.Crit, r.Range(1, 4))
 		}
 	}
-	if r.P(45) {
+	if r.P(pct(qc.SortPct, 45)) {
 		q.Sorted = true
 		switch r.Intn(10) {
 		case 0: // Sort() = by _id
@@ -412,11 +424,11 @@ func (r *Rng) Query(qc *QueryCtx) *model.Query {
 			q.Sort = []model.SortOpt{{Field: r.sortField(qc), Dir: r.dir()}, {Field: r.sortField(qc), Dir: r.dir()}, {Field: "_id", Dir: r.dir()}}
 		}
 	}
-	if r.P(35) {
+	if r.P(pct(qc.WinPct, 35)) {
 		q.HasSkip = true
 		q.Skip = r.windowVal(qc.N)
 	}
-	if r.P(35) {
+	if r.P(pct(qc.WinPct, 35)) {
 		q.HasLimit = true
 		q.Limit = r.windowVal(qc.N)
 	}
